@@ -249,6 +249,7 @@ pub fn subs() -> Vec<Sub<'static>> {
         Sub { name: "docs", oracle: &oracle, minimise_bytes: true },
         Sub { name: "mutations", oracle: &oracle, minimise_bytes: true },
         Sub { name: "long-numbers", oracle: &oracle, minimise_bytes: true },
+        Sub { name: "many-small", oracle: &oracle, minimise_bytes: false },
     ]
 }
 
@@ -339,6 +340,9 @@ pub fn run(ctx: &Ctx) {
         }
         m
     });
+
+    // (c2) shallow documents with hundreds of tiny containers (state that accumulates per container)
+    ctx.search(&sub("many-small"), "many-small", ctx.n(1_200, 20_000), 200, &|src: &mut Src| gens::gen_many_small(src));
 
     // (d) systematic mutation sweep over generated documents
     let s = sub("mutations");
